@@ -35,6 +35,8 @@ def run_ser(pid, tier, seed, final_op, fmts, opts_quick, opts_thorough, clauses,
     runs.append(("ns", 2 if quick else 3, "min", ["entity"], opts[:1]))
     # (5) a document with a default namespace and two bundles
     runs.append(("ns2", 3 if quick else 4, "min", ["entity"], opts[:1]))
+    # (6) a bundle built on its own, named in a namespace of its own, attached with add_bundle()
+    runs.append(("addb", 1 if quick else 2, "min", ["entity"], opts[:1]))
     behaviours = []
     stA = stT = 0
     wallA = wallB = 0.0
